@@ -41,7 +41,36 @@ type childCfg struct {
 	KillAtHit  int64 // k-th hook hit => SIGKILL self (0 = never)
 	KillAtIns  int64 // j-th insert into a temporary store => SIGKILL self (0 = never)
 	ProbeFiles []string
+	WDForm     string // spelling / kind of the configured work_dir, see wdOf
 }
+
+// wdOf returns the work_dir as it is configured for a case directory. Every form names the same kind
+// of place (a directory below the case directory); they differ in spelling or in being a link.
+func wdOf(dir, form string) string {
+	switch form {
+	case "glob-characters":
+		return filepath.Join(dir, "wd [prod] *?")
+	case "trailing-slash":
+		return filepath.Join(dir, "wd") + "/"
+	case "dot-segment":
+		return dir + "/./wd"
+	case "symbolic-link":
+		return filepath.Join(dir, "wd-current") // -> wd-real (relative link, created by mkWD)
+	}
+	return filepath.Join(dir, "wd")
+}
+
+func mkWD(dir, form string) {
+	switch form {
+	case "symbolic-link":
+		_ = os.MkdirAll(filepath.Join(dir, "wd-real"), 0755)
+		_ = os.Symlink("wd-real", filepath.Join(dir, "wd-current"))
+	default:
+		_ = os.MkdirAll(wdOf(dir, form), 0755)
+	}
+}
+
+var wdForms = []string{"plain", "glob-characters", "symbolic-link", "trailing-slash", "dot-segment"}
 
 type probeSet struct {
 	Names   []string
@@ -114,7 +143,7 @@ func childCrash(cfgPath string) {
 			time.Sleep(time.Hour)
 		}
 	})
-	chk, err := l2.Start(l2.Opts{WorkDir: filepath.Join(cfg.Dir, "wd"), Storage: "disk", SigMode: "verify", Fetch: "actively", Strict: true})
+	chk, err := l2.Start(l2.Opts{WorkDir: wdOf(cfg.Dir, cfg.WDForm), Storage: "disk", SigMode: "verify", Fetch: "actively", Strict: true})
 	if err != nil {
 		fmt.Println("child: provision:", err)
 		os.Exit(4)
@@ -165,7 +194,7 @@ func childRestart(cfgPath string) {
 	var ps probeSet
 	pb, _ := os.ReadFile(filepath.Join(cfg.Dir, "probes.json"))
 	_ = json.Unmarshal(pb, &ps)
-	wd := filepath.Join(cfg.Dir, "wd")
+	wd := wdOf(cfg.Dir, cfg.WDForm)
 	chk, err := l2.Start(l2.Opts{WorkDir: wd, Storage: "disk", SigMode: "verify", Fetch: "actively", Strict: true})
 	if err != nil {
 		out.ProvisionErr = err.Error()
@@ -208,10 +237,11 @@ type scenario struct {
 	Refresh  bool
 	Accepted bool
 	N        int
+	WD       string // work_dir form
 }
 
 func (s scenario) String() string {
-	return fmt.Sprintf("%s sig=%s n=%d", map[bool]string{true: "refresh", false: "first-load"}[s.Refresh], map[bool]string{true: "accepted", false: "rejected"}[s.Accepted], s.N)
+	return fmt.Sprintf("%s sig=%s n=%d work_dir=%s", map[bool]string{true: "refresh", false: "first-load"}[s.Refresh], map[bool]string{true: "accepted", false: "rejected"}[s.Accepted], s.N, s.WD)
 }
 
 type lab struct {
@@ -283,7 +313,7 @@ func main() {
 		return
 	}
 	run := report.New("C12", "fault_enumeration")
-	run.Rule("crash run = child process (disk backend, strict CDP, healthy origin in the parent) doing a first load or a refresh, killed with SIGKILL (a) at the k-th hook hit for every k until the run completes without reaching k, (b) right after the j-th write into the staging store for j in {1,2,mid,last-1,last}, (c) thorough: at seeded instants from outside, (d) while the body of the download is arriving (the origin sends half of it, then the child is killed); restart run = fresh child on the crash image with the origin down; scenarios {first load, refresh} x signature {accepted, rejected} x size; oracle: verdict vector over probes {first/middle/last entry unique to old, to new, common, never} equals 'not loaded' (all denied), 'complete old' or 'complete new' (new only if the scenario's CRL is acceptable), no crl_*_tmp entry remains after Provision and work_dir holds no name that a run without crash does not leave behind, restart neither fails nor panics; non-trivial = crash pair in which the child really died at the crash point; distinct = scenario + crash point")
+	run.Rule("crash run = child process (disk backend, strict CDP, healthy origin in the parent) doing a first load or a refresh, killed with SIGKILL (a) at the k-th hook hit for every k until the run completes without reaching k, (b) right after the j-th write into the staging store for j in {1,2,mid,last-1,last}, (c) thorough: at seeded instants from outside, (d) while the body of the download is arriving (the origin sends half of it, then the child is killed); restart run = fresh child on the crash image with the origin down; scenarios {first load, refresh} x signature {accepted, rejected} x size, each with one of five work_dir forms (plain, name with glob characters and spaces, symbolic link to a directory, trailing slash, dot segment); oracle: verdict vector over probes {first/middle/last entry unique to old, to new, common, never} equals 'not loaded' (all denied), 'complete old' or 'complete new' (new only if the scenario's CRL is acceptable), no crl_*_tmp entry remains after Provision and work_dir holds no name that a run without crash does not leave behind, restart neither fails nor panics; non-trivial = crash pair in which the child really died at the crash point; distinct = scenario + crash point")
 	run.Assume("process death only (SIGKILL): nothing is fsynced by the code and a lost page cache cannot be simulated here", "the kill happens inside the hook call, i.e. between the statements around the hook site")
 	scratch, _ := report.Scratch("C12")
 	bin := os.Getenv("VERIF_ENGINE_BIN")
@@ -302,7 +332,7 @@ func main() {
 	for _, n := range sizes {
 		for _, refresh := range []bool{false, true} {
 			for _, acc := range []bool{true, false} {
-				scns = append(scns, scenario{refresh, acc, n})
+				scns = append(scns, scenario{refresh, acc, n, wdForms[len(scns)%len(wdForms)]})
 			}
 		}
 	}
@@ -324,7 +354,7 @@ func main() {
 func (l *lab) runScenario(si int, sc scenario, rng *rand.Rand) {
 	run := l.run
 	base := filepath.Join(l.scratch, fmt.Sprintf("s%d-base", si))
-	_ = os.MkdirAll(filepath.Join(base, "wd"), 0755)
+	mkWD(base, sc.WD)
 	l.writePKI(base)
 	path := fmt.Sprintf("/s%d.crl", si)
 	url := l.org.URL(path)
@@ -360,7 +390,7 @@ func (l *lab) runScenario(si int, sc scenario, rng *rand.Rand) {
 	if sc.Refresh {
 		// base image: old list loaded by a run that exits cleanly
 		l.org.Set(path, origin.Good(oldDoc))
-		exit, sig := l.runChild("child-crash", childCfg{Dir: base, URL: url}, 120*time.Second)
+		exit, sig := l.runChild("child-crash", childCfg{Dir: base, URL: url, WDForm: sc.WD}, 120*time.Second)
 		if exit != 0 || sig {
 			run.Inconclusive(fmt.Sprintf("%s: base image could not be created (exit %d)", sc, exit))
 			return
@@ -409,7 +439,7 @@ func (l *lab) runScenario(si int, sc scenario, rng *rand.Rand) {
 		run.Eval(1)
 		// restart with the origin down
 		l.org.Set(path, origin.Status(500, []byte("down")))
-		exit, sig := l.runChild("child-restart", childCfg{Dir: cdir, URL: url}, 120*time.Second)
+		exit, sig := l.runChild("child-restart", childCfg{Dir: cdir, URL: url, WDForm: sc.WD}, 120*time.Second)
 		desc := fmt.Sprintf("%s crash-point=%s", sc, point)
 		var ro restartOut
 		rb, err := os.ReadFile(filepath.Join(cdir, "restart.json"))
@@ -484,7 +514,7 @@ func (l *lab) runScenario(si int, sc scenario, rng *rand.Rand) {
 	for k := int64(1); k < 400; k++ {
 		cdir := newCase()
 		serve()
-		exit, sig := l.runChild("child-crash", childCfg{Dir: cdir, URL: url, Refresh: sc.Refresh, KillAtHit: k}, 180*time.Second)
+		exit, sig := l.runChild("child-crash", childCfg{Dir: cdir, URL: url, Refresh: sc.Refresh, KillAtHit: k, WDForm: sc.WD}, 180*time.Second)
 		hb, _ := os.ReadFile(filepath.Join(cdir, "hits.log"))
 		lines := strings.Split(strings.TrimSpace(string(hb)), "\n")
 		last := ""
@@ -514,7 +544,7 @@ func (l *lab) runScenario(si int, sc scenario, rng *rand.Rand) {
 	for _, j := range js {
 		cdir := newCase()
 		serve()
-		_, sig := l.runChild("child-crash", childCfg{Dir: cdir, URL: url, Refresh: sc.Refresh, KillAtIns: j}, 180*time.Second)
+		_, sig := l.runChild("child-crash", childCfg{Dir: cdir, URL: url, Refresh: sc.Refresh, KillAtIns: j, WDForm: sc.WD}, 180*time.Second)
 		evaluate(fmt.Sprintf("staged-write#%d-of-%d", j, totalInserts), cdir, sig)
 		_ = os.RemoveAll(cdir)
 	}
@@ -523,7 +553,7 @@ func (l *lab) runScenario(si int, sc scenario, rng *rand.Rand) {
 		for i := 0; i < 50; i++ {
 			cdir := newCase()
 			serve()
-			cb, _ := json.Marshal(childCfg{Dir: cdir, URL: url, Refresh: sc.Refresh})
+			cb, _ := json.Marshal(childCfg{Dir: cdir, URL: url, Refresh: sc.Refresh, WDForm: sc.WD})
 			cp := filepath.Join(cdir, "child-crash.cfg.json")
 			_ = os.WriteFile(cp, cb, 0644)
 			cmd := exec.Command(l.bin, "child-crash", cp)
@@ -539,7 +569,7 @@ func (l *lab) runScenario(si int, sc scenario, rng *rand.Rand) {
 	// (d) while the body of the download is arriving: the origin sends the first half, then the child is killed
 	for i := 0; i < 2; i++ {
 		cdir := newCase()
-		cb, _ := json.Marshal(childCfg{Dir: cdir, URL: url, Refresh: sc.Refresh})
+		cb, _ := json.Marshal(childCfg{Dir: cdir, URL: url, Refresh: sc.Refresh, WDForm: sc.WD})
 		cp := filepath.Join(cdir, "child-crash.cfg.json")
 		_ = os.WriteFile(cp, cb, 0644)
 		cmd := exec.Command(l.bin, "child-crash", cp)
@@ -570,7 +600,7 @@ func (l *lab) runScenario(si int, sc scenario, rng *rand.Rand) {
 	// leftovers, whatever they are called
 	if reference != nil {
 		if sc.Refresh {
-			ents, _ := os.ReadDir(filepath.Join(base, "wd"))
+			ents, _ := os.ReadDir(wdOf(base, sc.WD))
 			for _, e := range ents {
 				reference[e.Name()] = true
 			}
